@@ -1871,7 +1871,19 @@ func (ex *Exec) slice(st *State, fr *Frame, in *ssa.Slice) bool {
 			return false
 		}
 		if len(x.Path) != 0 {
-			panic("slice of array inside struct not supported")
+			// array nested in a struct (or behind a window): the slice is taken over a snapshot of the
+			// array (sound for reads; the repository only reads through such slices: dir.hash[:])
+			av, ok := ex.load(st, x, pos)
+			if !ok {
+				return false
+			}
+			a, isArr := av.(ArrV)
+			if !isArr {
+				panic("slice of a non-scalar array inside a struct not supported")
+			}
+			id := ex.newObj(st, ArrV{a.A, -1, a.ElW})
+			fr.env[in] = SliceV{id, lo, Sub(hi, lo), Sub(n, lo)}
+			return true
 		}
 		fr.env[in] = SliceV{x.Obj, lo, Sub(hi, lo), Sub(n, lo)}
 	case StringV:
@@ -2076,6 +2088,7 @@ var envStubs = map[string]bool{
 	"strconv.Itoa": true, "strconv.FormatInt": true, "strconv.Atoi": true, "strconv.ParseInt": true,
 	"(net/url.Values).Set": true, "(net/url.Values).Encode": true, "(*net/url.URL).String": true, "(*net/url.URL).Hostname": true, "(*net/url.URL).Port": true,
 	"github.com/jech/storrent/httpclient.Get": true, "net/netip.ParseAddr": true, "net.JoinHostPort": true,
+	"hash/fnv.New64a": true, "fmt.Sprintf": true, "os.Getuid": true, "os.Getgid": true,
 	"(*net/url.URL).Query": true, "(net/url.Values).Get": true, "net/url.PathEscape": true,
 }
 
